@@ -1,5 +1,6 @@
 import Irismod.Props.Tie_TokenFee
 open Irismod.Props.Tie Irismod.Gen.PureTokenFee Irismod.Sdk
+#print axioms tokenfee_effects_pinned
 #print axioms tokenfee_guards_pinned
 #print axioms tokenfee_all_translated
 #print axioms tokenfee_translated_pinned
